@@ -400,6 +400,42 @@ def sequence_algebra_contracts(r):
             m0 = a.makespan
             if a.remove_useless_wm() is not a or a.makespan != m0:
                 bad("Sequence.remove_useless_wm", (l, cm))
+    # makespan == sum of the costs of the flattened operations (what links the builders' makespan
+    # contracts to the iterator's stream-cost obligation), and the contract-language op_cost() used
+    # there == Operation.cost() when RAM transfers are free
+    from checkpoint_schedules.hrevolve_sequences.hrevolve import hrevolve
+    from checkpoint_schedules.hrevolve_sequences.periodic_disk_revolve import periodic_disk_revolve
+    import contextlib, io
+
+    def spec_op_cost(op, uf, ub, wd, rd):
+        t, ix = op.type, op.index
+        if t == "Forward":
+            return (ix[1] - ix[0]) * uf
+        if t == "Backward":
+            return ub
+        if t == "Read_disk" or (t == "Read" and ix[0] == 1):
+            return rd
+        if t == "Write_disk" or (t in ("Write", "Write_Forward") and ix[0] == 1):
+            return wd
+        return 0
+    uf, ub, wd, rd = Fraction(3), Fraction(5), Fraction(7), Fraction(11)
+    for l in range(0, 9):
+        for cm in range(1, 4):
+            seqs = [("revolve", revolve(l, cm, rd, wd, uf, ub)), ("disk_revolve", disk_revolve(l, cm, rd, wd, uf, ub))]
+            with contextlib.redirect_stdout(io.StringIO()):
+                seqs.append(("periodic_disk_revolve", periodic_disk_revolve(l, cm, rd, wd, uf, ub)))
+            for d in range(0, 3):
+                seqs.append(("hrevolve", hrevolve(l, (cm, d), [0, wd], [0, rd], uf, ub)))
+            for name, sq in seqs:
+                n += 1
+                ops = list(sq)
+                total = sum(op.cost() for op in ops)
+                if total != sq.makespan:
+                    bad("makespan_is_sum_of_operation_costs", "%s l=%d cm=%d: %s vs %s" % (name, l, cm, total, sq.makespan))
+                for op in ops:
+                    if spec_op_cost(op, uf, ub, wd, rd) != op.cost():
+                        bad("op_cost_is_Operation_cost", "%s %s %r" % (name, op.type, op.index))
+                        break
     r["evaluations"] += n
     r["clauses"].append("sequence_algebra_contracts")
 
